@@ -46,6 +46,8 @@ import (
 	govv1beta1 "github.com/cosmos/cosmos-sdk/x/gov/types/v1beta1"
 	slashingtypes "github.com/cosmos/cosmos-sdk/x/slashing/types"
 	stakingtypes "github.com/cosmos/cosmos-sdk/x/staking/types"
+	ethcommon "github.com/ethereum/go-ethereum/common"
+	ethtypes "github.com/ethereum/go-ethereum/core/types"
 	"github.com/ethereum/go-ethereum/crypto"
 	"github.com/onsi/ginkgo/v2"
 	"github.com/palomachain/paloma/v2/tests/integration/helper"
@@ -696,7 +698,17 @@ func (w *appWorld) execMsg(ctx sdk.Context, m appMsg) (obs string, err error) {
 	case "evidence":
 		q, id := w.target(ctx, m)
 		var proof *codectypes.Any
-		if strings.HasPrefix(m.Data, "tx:") {
+		if strings.HasPrefix(m.Data, "ethtx:") {
+			// a well-formed (unsigned legacy) ethereum transaction: accepted as a tx proof by the evidence validation
+			var n uint64
+			fmt.Sscanf(strings.TrimPrefix(m.Data, "ethtx:"), "%d", &n)
+			to := ethcommon.HexToAddress("0x51eca2efb15afacc612278c71f5edb35986f172f")
+			bz, merr := ethtypes.NewTx(&ethtypes.LegacyTx{Nonce: n, GasPrice: big.NewInt(1), Gas: 21000, To: &to, Value: big.NewInt(0), Data: []byte("c08")}).MarshalBinary()
+			if merr != nil {
+				return "", merr
+			}
+			proof, err = codectypes.NewAnyWithValue(&evmtypes.TxExecutedProof{SerializedTX: bz})
+		} else if strings.HasPrefix(m.Data, "tx:") {
 			proof, err = codectypes.NewAnyWithValue(&evmtypes.TxExecutedProof{SerializedTX: []byte(strings.TrimPrefix(m.Data, "tx:"))})
 		} else {
 			proof, err = codectypes.NewAnyWithValue(&evmtypes.SmartContractExecutionErrorProof{ErrorMessage: m.Data})
